@@ -1045,7 +1045,9 @@ fn gen_blocking(rng: &mut Rng, tier: Tier, n: usize, ops: &[&str]) -> Vec<String
                     continue;
                 }
                 for (cap, prefill) in [(1usize, 1usize), (2, 2)] {
-                    for t in ["max", "maxsecs", "0", "3000"] {
+                    // (no zero timeout here: whether a call that may not wait at all finds the late receiver already
+                    // draining is up to the OS scheduler — `stalled` covers "zero returns at once" deterministically)
+                    for t in ["max", "maxsecs", "3000"] {
                         all.push(format!("(bl {} {} {} late {} {} {})", api, op, ctx, cap, prefill, t));
                     }
                 }
